@@ -197,8 +197,8 @@ func (c *channel) enqueue(req request, responseChan chan<- response, streaming b
 	}
 }
 
-// respondClosed answers a request that cannot be queued because the node is closed.
-// It is called by the goroutine that issues the call, which has not started to read the
+// respondClosed answers a request that cannot be sent because the node is closed.
+// It may be called by a goroutine that is issuing a call and has not started to read the
 // reply channel yet; the replies of a server stream may already have filled that channel,
 // so the hand-over must not block here.
 func (c *channel) respondClosed(req request) {
@@ -227,7 +227,7 @@ func (c *channel) failQueued() {
 	for {
 		select {
 		case req := <-c.sendQ:
-			c.routeResponse(req.msg.Metadata.MessageID, response{nid: c.node.ID(), err: errChannelClosed})
+			c.respondClosed(req)
 		default:
 			return
 		}
